@@ -197,6 +197,10 @@ func MapOrder(mode int)     {}
 func Preemptions(n int)     {}
 func TickLimit(n int)       {}
 func TimersNondet(b bool)   {}
+
+// SchedDeterministic(true): the symbolic executor explores one schedule only
+// (first enabled goroutine, first ready select case).
+func SchedDeterministic(b bool) {}
 func Concretize(x int) int  { return x }
 func IsSymbolicRun() bool   { return false }
 func Yield()                {}
